@@ -429,7 +429,7 @@ def digitChar (d : Nat) : UInt8 := byte (0x30 + d)
 
 /-- decimal digits of a natural number, most significant first (`strconv.FormatInt(…, 10)`) -/
 def natDigits (n : Nat) : List Nat :=
-  if h : n < 10 then [n] else natDigits (n / 10) ++ [n % 10]
+  if _h : n < 10 then [n] else natDigits (n / 10) ++ [n % 10]
 termination_by n
 decreasing_by omega
 
